@@ -111,11 +111,14 @@ def run_case(kind, inner_name, sc, seed, aperf_kind, ret_u):
     pref = int(sc["pref"])
     prefs = []
     kw = {}
+    # one third of the calls encode the missing labels with a reserved number (set consistently on the
+    # strategy, the wrapped strategy and the models): the available pairs must be the same
+    ml = -1 if seed % 3 == 0 else np.nan
     if kind == "wrapper":
         e = ENTRIES[inner_name]
-        inner = e.make(seed, np.nan, (0, 1))
-        qs = SingleAnnotatorWrapper(inner, random_state=seed)
-        kw.update(zoo.model_kwargs(e, np.nan, (0, 1), seed=seed))
+        inner = e.make(seed, ml, (0, 1))
+        qs = SingleAnnotatorWrapper(inner, missing_label=ml, random_state=seed)
+        kw.update(zoo.model_kwargs(e, ml, (0, 1), seed=seed))
         # one third of the calls pass the request as an array (entry k for the k-th ranked sample, the last
         # entry for all further ones)
         if rng.rand() < 0.34:
@@ -133,10 +136,10 @@ def run_case(kind, inner_name, sc, seed, aperf_kind, ret_u):
             kw["A_perf"] = rng.rand(n_cand, na)
         bs = int(sc["bs"])
     else:
-        qs = IntervalEstimationThreshold(random_state=seed)
+        qs = IntervalEstimationThreshold(missing_label=ml, random_state=seed)
         from skactiveml.classifier.multiannotator import AnnotatorLogisticRegression
 
-        kw["clf"] = AnnotatorLogisticRegression(classes=[0, 1], random_state=seed, max_iter=5)
+        kw["clf"] = AnnotatorLogisticRegression(classes=[0, 1], missing_label=ml, random_state=seed, max_iter=5)
         pref = 0
         if sc["bs"] == 10:
             kw["batch_size"] = "adaptive"
@@ -152,7 +155,7 @@ def run_case(kind, inner_name, sc, seed, aperf_kind, ret_u):
             warnings.simplefilter("ignore")
             with np.errstate(all="ignore"):
                 with pc.time_limit(6):
-                    res = qs.query(conc["X"].copy(), conc["y"].copy(),
+                    res = qs.query(conc["X"].copy(), conc["y"].copy() if ml != ml else np.where(np.isnan(conc["y"]), ml, conc["y"]),
                                    candidates=None if cand is None else np.array(cand),
                                    annotators=None if ann is None else np.array(ann),
                                    return_utilities=ret_u, **kw)
@@ -167,7 +170,7 @@ def run_case(kind, inner_name, sc, seed, aperf_kind, ret_u):
         "ns": n_rows, "na": na, "avail": conc["avail"], "bs": bs, "pref": pref, "prefs": prefs, "adaptive": adaptive,
         "events": events,
         "concrete": {"strategy": name, "scenario": sc, "seed": seed, "A_perf": aperf_kind, "return_utilities": ret_u,
-                     "n_annotators_per_sample": prefs or pref,
+                     "n_annotators_per_sample": prefs or pref, "missing_label": "nan" if ml != ml else ml,
                      "X": conc["X"].tolist(), "y": [["nan" if v != v else v for v in r] for r in conc["y"].tolist()],
                      "candidates": cand if not isinstance(cand, np.ndarray) else cand.tolist(),
                      "annotators": ann if not isinstance(ann, np.ndarray) else ann.tolist(),
